@@ -9,6 +9,8 @@ pub mod c20;
 pub mod c21;
 pub mod c22;
 pub mod c23;
+pub mod c29;
+pub mod c30;
 pub mod c34;
 pub mod hist;
 pub mod structural;
@@ -81,6 +83,8 @@ pub fn registry() -> Vec<PropInfo> {
     v.extend(c21::props());
     v.extend(c22::props());
     v.extend(c23::props());
+    v.extend(c29::props());
+    v.extend(c30::props());
     v.extend(c34::props());
     v
 }
